@@ -7,7 +7,8 @@ convention on the REAL library; it records, per convention, which body was enter
 parameter (receiver, positional, defaulted, keyword-only, extra) and the outcome, plus the answers of the
 classification helpers.  The Lean model (AsynqModel.Lib.Decorators) computes the same observations from the objects
 `__get__`/`__call__`/`asynq`/`async_call` build (correspondence), and the Lean predicate `Decorators.spec` (the
-statement of C09, proved of the model for every SUPPORTED cell and ARBITRARY argument lists: C09_spec_holds) judges the
+statement of C09, proved of the model for every SUPPORTED cell and ARBITRARY argument lists without a keyword called
+`fn`: C09_spec_holds_partial; the model mirrors the OPEN DEFECT `async_call(f, fn=...)` -> TypeError, see below) judges the
 implementation's observations on their own.  `spec` is exact (C09_spec_exact): it accepts the one report of the
 reference table and nothing else - in particular nothing at all for a cell outside the supported bindings (none is
 generated: `cells()` enumerates exactly `Decorators.supported`).
@@ -23,8 +24,8 @@ async_call: `siblingCall`) or completed / failed just before (`prior`).  The sec
 (a second instance of the class, the other class of the hierarchy for a classmethod) or passes other argument objects;
 the objects are plain, falsy, or chosen so that their HASHES COLLIDE with those of the observed call (a user class with
 a constant __hash__ and __repr__, built-in ints k / k + 2**61-1, tuples (-1, k) / (-2, k)).  Each of the two calls
-must run the body with its own receiver and its own arguments (theorems C09_second_call, C09_other_keys_irrelevant,
-C09_own_entries, C09_dict_hash_irrelevant: the in-flight table of deduplicate and the caches of alru_cache /
+must run the body with its own receiver and its own arguments (theorems C09_second_call_partial,
+C09_other_keys_irrelevant_partial, C09_own_entries, C09_dict_hash_irrelevant: the in-flight table of deduplicate and the caches of alru_cache /
 acached_per_instance are part of the model, with an arbitrary hash function).  When the second call would be the
 observed call itself (nothing to vary) the three conventions are skipped: how often a body runs for IDENTICAL calls is
 C12's / C13's subject.
@@ -33,17 +34,27 @@ HISTORY of the world (`hist`): before the observed convention, in the same world
 another thread), the helpers are applied to it, the instances are replaced by copy.copy / copy.deepcopy of themselves,
 `.asyncio()` calls (of a returning helper, of a failing helper, of the attribute itself) are awaited directly in the
 coroutine in which the convention then runs, earlier look-ups are garbage collected, debug options are switched on, a
-scoped value is overridden, the class attribute is mock-patched and restored.  The model has the two pieces of state
-that could matter (asyncio-mode flag, instance __dict__ entries shadowing the attribute) and proves that no history
-changes them (C09_history_restores, C09_history_irrelevant); the observations must be those of a fresh world.
+scoped value is overridden, the class attribute is mock-patched and restored.  The observations must be those of a
+fresh world.  The model NAMES the two pieces of state that could matter (asyncio-mode flag, instance __dict__ entries
+shadowing the attribute) but no event writes them: that the model's report does not depend on the history holds BY
+CONSTRUCTION (C09_history_*_by_construction, not headline claims); that the CODE leaves nothing behind rests on this
+differential run (contrast witnesses C09_aio_exit_needed, C09_use_shadow_needed).
 OVERRIDE (`ovr`): Sub defines its own attribute of the same name, decorated the same way, whose bodies (5, 6) delegate
 to the inherited one through super(): every entry of an own body must be preceded by the overriding body's entry with
-the same bound parameters (direct expectation in Lean: ovrLog; no theorem models super()).  Decoration options the
+the same bound parameters (direct expectation in Lean: ovrLog; no theorem models super(); for these cases CORR and SPEC
+are the same comparison against that one expectation).  Decoration options the
 model does not read: `shared` (ONE decorator-factory object decorates the own and the twin function), `kwopt` (the
 seldom used keywords asyncio_fn= / allow_sync_call= are supplied; the asyncio_fn must never run).
 
+KEYWORD NAMES: a..e and `fn`.  `def async_call(fn, *args, **kwargs)` (decorators.py:398) binds the callable to a
+positional-or-keyword parameter: `async_call(f, x, fn=v)` raises TypeError while f(x, fn=v) and f.asynq(x, fn=v) run the
+body - a GENUINE VIOLATION of C09 (the conventions disagree) for every body that accepts the keyword.  The model mirrors
+the code (Decorators.asyncCall; theorems C09_async_call_kw_fn, C09_async_call_fn_counterexample; every theorem about an
+async_call convention carries the hypothesis `fnFree` and is named *_partial), the reserved-name family and 6 % of the
+random argument lists reach it, and `signature` gives it the stable name `async_call/keyword-named-fn`.
+
 An UNDECORATED generator function (kind raw x body gen / batch) is ordinary Python: every convention that reaches it
-hands back the unstarted generator object, no body is entered (C09_raw_generator).  These cells are outside the
+hands back the unstarted generator object, no body is entered (C09_raw_generator_partial).  These cells are outside the
 statement of C09 (it speaks about decorated callables) but inside what the helpers accept, so they are modelled and
 enumerated (they used to be skipped while the model claimed that the body runs)."""
 import hashlib
@@ -54,52 +65,74 @@ import random
 PID = "C09"
 LEVEL = "proof"
 LEAN_MODULES = ["AsynqModel.Theorems.C09"]
-THEOREMS = [
-    "AsynqModel.Decorators.C09_agree",
-    "AsynqModel.Decorators.C09_receiver",
+# HEADLINE: the property theorems (statements with content about the model) and the machine-checked necessity
+# witnesses of their hypotheses.  `_partial` = carries the decidable hypothesis `fnFree` (no keyword argument is called
+# `fn`): the open defect async_call(f, fn=...) (C09_async_call_kw_fn / C09_async_call_fn_counterexample).
+HEADLINE = [
+    "AsynqModel.Decorators.C09_agree_partial",
+    "AsynqModel.Decorators.C09_receiver_partial",
     "AsynqModel.Decorators.C09_sync",
     "AsynqModel.Decorators.C09_direct",
-    "AsynqModel.Decorators.C09_outcome",
-    "AsynqModel.Decorators.C09_raw_generator",
+    "AsynqModel.Decorators.C09_outcome_partial",
+    "AsynqModel.Decorators.C09_raw_generator_partial",
     "AsynqModel.Decorators.C09_body_kind_irrelevant",
-    "AsynqModel.Decorators.C09_body_kind_matters_raw",
     "AsynqModel.Decorators.C09_get_binder",
     "AsynqModel.Decorators.C09_any_receiver",
     "AsynqModel.Decorators.C09_classify",
-    "AsynqModel.Decorators.C09_convert",
+    "AsynqModel.Decorators.C09_convert_partial",
     "AsynqModel.Decorators.C09_dedup_own_body",
     "AsynqModel.Decorators.C09_separates",
-    "AsynqModel.Decorators.C09_proxy_pure",
-    "AsynqModel.Decorators.C09_spec_holds",
+    "AsynqModel.Decorators.C09_proxy_pure_partial",
+    "AsynqModel.Decorators.C09_spec_holds_partial",
+    "AsynqModel.Decorators.C09_spec_holds_repaired",
     "AsynqModel.Decorators.C09_spec_exact",
     "AsynqModel.Decorators.C09_dict_hash_irrelevant",
-    "AsynqModel.Decorators.C09_second_call",
-    "AsynqModel.Decorators.C09_second_call_default_key",
+    "AsynqModel.Decorators.C09_second_call_partial",
+    "AsynqModel.Decorators.C09_second_call_default_key_partial",
     "AsynqModel.Decorators.C09_second_call_receivers",
-    "AsynqModel.Decorators.C09_other_keys_irrelevant",
+    "AsynqModel.Decorators.C09_other_keys_irrelevant_partial",
     "AsynqModel.Decorators.C09_own_entries",
-    # history of the world, an overriding subclass (XCase; the observer the driver evaluates is specX)
-    "AsynqModel.Decorators.C09_history_restores",
-    "AsynqModel.Decorators.C09_history_clean",
-    "AsynqModel.Decorators.C09_history_irrelevant",
-    "AsynqModel.Decorators.C09_spec_holds_ext",
+    # the open defect: a keyword argument called `fn` breaks async_call (for every cell) + the concrete counterexample
+    "AsynqModel.Decorators.C09_async_call_kw_fn",
+    "AsynqModel.Decorators.C09_async_call_fn_counterexample",
+    # the observer the driver evaluates (specX): exact, conservative over spec; the model satisfies it
+    "AsynqModel.Decorators.C09_spec_holds_ext_partial",
     "AsynqModel.Decorators.C09_spec_exact_ext",
     "AsynqModel.Decorators.C09_ext_conservative",
-    "AsynqModel.Decorators.C09_override_log",
     # machine-checked witnesses that the hypotheses of the theorems above are needed
     "AsynqModel.Decorators.C09_supported_needed",
     "AsynqModel.Decorators.C09_available_needed",
+    "AsynqModel.Decorators.C09_body_kind_matters_raw",
+    "AsynqModel.Decorators.C09_rawgen_needed",
+    "AsynqModel.Decorators.C09_self_needed",
+    "AsynqModel.Decorators.C09_has_asynq_needed",
     "AsynqModel.Decorators.C09_second_call_key_needed",
+    "AsynqModel.Decorators.C09_second_call_distinct_needed",
+    "AsynqModel.Decorators.C09_recv_param_needed",
     "AsynqModel.Decorators.C09_key_injective_needed",
     "AsynqModel.Decorators.C09_consistent_needed",
-    "AsynqModel.Decorators.C09_aio_exit_needed",
+    "AsynqModel.Decorators.C09_cache_consistent_needed",
+    "AsynqModel.Decorators.C09_sync_fn_spelling_needed",
+    "AsynqModel.Decorators.C09_ovr_ok_needed",
+    "AsynqModel.Decorators.C09_ext_conservative_needed",
 ]
-# statements that hold BY CONSTRUCTION of the model (proved by rfl; in Theorems/C09.lean for the record, NOT claimed as
+# statements that hold BY CONSTRUCTION of the model (in Theorems/C09.lean for the record, axiom-audited, NOT claimed as
 # property theorems): what they are about rests on the differential run only
 BY_CONSTRUCTION = [
     "AsynqModel.Decorators.C09_truthiness_history_by_construction",   # Case.falsy / Case.pre are read by nothing
     "AsynqModel.Decorators.C09_convention_pairs_by_definition",       # sync=nestedSync, asynqValue=yieldAsynq, asyncCall=asyncCallSync
+    # history of the world: HState.step is the identity on every reachable state (no Ev writes mode / shadowed) and the
+    # history is not fed into Env (second audit N12)
+    "AsynqModel.Decorators.C09_history_restores_by_construction",
+    "AsynqModel.Decorators.C09_history_clean_by_construction",
+    "AsynqModel.Decorators.C09_history_irrelevant_by_construction",
+    # contrast models: what a leaking .asyncio() exit / a __get__ that caches in the instance __dict__ would do
+    "AsynqModel.Decorators.C09_aio_exit_needed",
+    "AsynqModel.Decorators.C09_use_shadow_needed",
+    # ovrLog unfolded on C09_outcome_partial: holds for ANY observation with that log, no override is modelled
+    "AsynqModel.Decorators.C09_override_log_by_construction",
 ]
+THEOREMS = HEADLINE + BY_CONSTRUCTION
 BUILDS = {"quick": ["py"], "thorough": ["py", "cy"]}
 EXHAUSTIVE = {"quick": True, "thorough": True}
 CASE_TIMEOUT = 20
@@ -110,7 +143,8 @@ RULE = ("exhaustive product: 12 decorator kinds (undecorated, asynq, asynq pure,
         "3 body kinds (plain return, generator, blocks on a batch; for the undecorated kind too) x returns/raises x 3 "
         "signatures (a,b=D,*,c=D | *args,**kw | a,b=D,*args,c=D,**kw) x "
         "11 fixed argument patterns (positional, keyword, default, keyword-only, extra, 4 malformed), then seeded random "
-        "argument lists; every cell runs 13 calling conventions on the real code = 10 distinct computations of the model "
+        "argument lists (keyword names a..e and, in 6 % of them and in the RESERVED-NAME family - every kind x 3 bindings x 3 "
+        "signatures - `fn`, the name of async_call's own first parameter); every cell runs 13 calling conventions on the real code = 10 distinct computations of the model "
         "(sync call [= sync call inside a task], .asynq().value() [= yield .asynq() from a task], yield async_call.asynq "
         "[= async_call()], get_async_fn, get_async_or_sync_fn, get_async_fn(wrap_if_none=True), .asynq() with a same-named "
         "twin in flight, .asynq() and async_call with a SECOND CALL OF THE SAME ATTRIBUTE in flight, .asynq() after such a "
@@ -143,27 +177,46 @@ TRUSTED = [
     "exception raised while a future is being created is delivered where the future is awaited, so that both calls are made)",
     "qcore.decorators (compiled), qcore.caching.get_args_tuple, CPython descriptor protocol for function/staticmethod/classmethod",
     "history events and the overriding subclass are constructions of the harness (World.event / aio_event / _make_override); "
-    "HState (asyncio-mode flag, shadowed instance __dict__ entries) is the model's whole idea of what a use can leave behind: "
-    "that the code has no further state that matters is established by the run only",
+    "HState (asyncio-mode flag, shadowed instance __dict__ entries) is the model's whole idea of what a use can leave behind, and "
+    "no event of the model writes it: that the code leaves nothing behind (these two or anything else) is established by the run only",
 ]
 ASSUMPTIONS = [
     "`.value()`, yielding a future from a task and a nested synchronous call deliver the future's own outcome (C01/C02): "
     "the model identifies the convention pairs sync/nestedSync, asynqValue/yieldAsynq, asyncCall/asyncCallSync by "
     "definition, so that they agree on the real code is established by the differential run only",
     "the observed conventions run with asyncio mode off (what fn.asyncio delivers is C15); earlier .asyncio() calls in the same "
-    "context, returning or failing, are history events and must leave the mode off (C09_history_restores; seeded C09-8); "
+    "context, returning or failing, are history events and must leave the mode off (checked on the real code by the history "
+    "family; in the model this holds by construction - C09_history_restores_by_construction, contrast C09_aio_exit_needed; seeded C09-8); "
     "the observed convention runs on one thread (a history event may have used the attribute on another)",
     "restricted to the cells with Decorators.supported (hypothesis of every theorem, conjunct of spec): module-level "
     "callables are plain functions; the function-style wrappers (aretry, alru_cache, acached_per_instance) are exercised "
     "only on functions and instance methods (acached_per_instance on instance methods), as the property's quantifier says; "
-    "each convention runs on freshly generated classes, so caches are cold apart from the ONE earlier call of "
-    "the convention `prior` (longer cache histories are C13)",
+    "each convention runs on freshly generated classes; in the MODEL the caches are cold apart from the ONE earlier call of "
+    "the convention `prior` - on the real code the history events `use` / `useThread` / `aioSelf` make up to three further calls "
+    "per event with THIRD argument objects (other keys: C09_other_keys_irrelevant_partial says such entries cannot matter; the "
+    "model does not thread them through the history) (longer cache histories are C13)",
+    "OPEN DEFECT, inside the statement: a keyword argument called `fn` - `def async_call(fn, *args, **kwargs)` takes it for a "
+    "second value of its own first parameter and raises TypeError where f(fn=...) / f.asynq(fn=...) run the body.  Modelled as "
+    "the code is (Decorators.asyncCall); hypothesis `fnFree` of every *_partial theorem, needed: C09_async_call_kw_fn (all "
+    "cells), C09_async_call_fn_counterexample; the repaired tree (fn positional-only) is modelCvF / C09_spec_holds_repaired; "
+    "signature async_call/keyword-named-fn",
+    "keyword NAMES are the identifiers a..e and fn.  A NON-receiver parameter called `self` passed by keyword is not generated: in "
+    "the pure-Python build every `def __call__(self, *args, **kwargs)` / `def asynq(self, *args, **kwargs)` of the decorator and "
+    "binder classes rejects it with TypeError (ALL conventions alike - they agree, on an error an undecorated function would not "
+    "raise), the Cython build accepts it; same root cause as the `fn` defect (a positional-or-keyword parameter of the call "
+    "machinery in front of **kwargs), outside what the model's name tokens express",
+    "HOW sync_fn is supplied: the model and the harness use, per decorator, the one spelling that works - @asynq(sync_fn=X) over a "
+    "classmethod / staticmethod needs X wrapped LIKE fn (AsyncAndSyncPairDecorator.__get__ re-binds it through the descriptor "
+    "protocol), @async_proxy(sync_fn=X) needs the BARE function (no __get__ override: it calls sync_fn(receiver, ...) itself).  With "
+    "the other spelling the plain call fails or runs sync_fn with the wrong receiver while .asynq works (C09_sync_fn_spelling_needed, "
+    "reproduced on the real code): the property's sync_fn sentence is claimed for the working spelling only - an undocumented API "
+    "asymmetry, not filed as a defect",
     "an UNDECORATED generator function is outside the statement of C09 (it speaks about decorated callables): calling "
     "it through sync / async_call / get_async_or_sync_fn / get_async_fn(wrap_if_none=True) yields the unstarted "
-    "generator object and runs nothing; modelled as it is (C09_raw_generator), not counted as a violation",
+    "generator object and runs nothing; modelled as it is (C09_raw_generator_partial), not counted as a violation",
     "the second call of sibling / siblingCall / prior always differs from the observed one in its receiver or in every "
     "argument object, with the same spelling (so any key function that keeps the arguments apart separates them: "
-    "hypothesis hkey of C09_second_call, needed - C09_second_call_key_needed); how often a body runs for two IDENTICAL "
+    "hypothesis hkey of C09_second_call_partial, needed - C09_second_call_key_needed); how often a body runs for two IDENTICAL "
     "calls (in-flight sharing, cache hits) is C12 / C13 and the conventions are skipped there; argument objects "
     "compare by identity (no two distinct objects are ==)",
     "C09_dedup_own_body / C09_own_entries: entries of the function under test in the in-flight table / the caches were "
@@ -172,10 +225,14 @@ ASSUMPTIONS = [
     "needed: C09_consistent_needed, C09_key_injective_needed",
     "override cases (Sub overrides the attribute and delegates through super()) are judged by a DIRECT EXPECTATION written in "
     "Lean (ovrLog: the overriding body's entry, same bound parameters, just before every entry of an own body; outcome "
-    "unchanged; the conventions with two calls in flight are not run) - no theorem models super(); the delegation step alone is "
+    "unchanged; the conventions with two calls in flight are not run; a doubly wrapped result of make_async_decorator is unwrapped "
+    "twice by the harness) - no theorem models super(), CORR and SPEC are the same comparison for these cases "
+    "(C09_override_log_by_construction is ovrLog unfolded, not a claim); the delegation step alone is "
     "an instance of C09_any_receiver (super(Sub, self).target is __get__(self, Sub) of the inherited attribute)",
-    "history events other than copy / deepcopy / the three .asyncio() events are the identity on the model's state by "
-    "construction (it has no component they could touch); one decorator-factory object for several functions, asyncio_fn= / "
+    "ALL history events are the identity on every state of the model a history can reach, by construction (no event writes the "
+    "asyncio-mode flag or a shadowing __dict__ entry; copy on nothing shadowed and a set-then-reset .asyncio() are the identity "
+    "too): the C09_history_*_by_construction statements are not claims about the code; `use` / `aioSelf` degrade to a look-up / "
+    "to nothing when the case passes no arguments (the call would BE the observed call); one decorator-factory object for several functions, asyncio_fn= / "
     "allow_sync_call=, custom task keywords are not inputs of the model",
     "the truth value of receivers, the history of attribute look-ups, the class of the raised exception, a user task "
     "class and a user key function are not inputs of the model: its answer is the same for all of them (by "
@@ -184,7 +241,7 @@ ASSUMPTIONS = [
 
 KINDS = ["raw", "asynq", "pure", "proxy", "proxyPure", "pair", "pairProxy", "mad", "dedup", "aretry", "alru", "acpi"]
 # @async_proxy(pure=True) used to hand the function back unmarked, so the helpers did not recognise it (found by this
-# check, fixed in the library, theorem C09_proxy_pure); the cells stay in the enumeration as a regression guard.
+# check, fixed in the library, theorem C09_proxy_pure_partial); the cells stay in the enumeration as a regression guard.
 INCLUDE_PROXY_PURE = True
 FN_STYLE = ("aretry", "alru", "acpi")
 FTS = ["plain", "static", "classm"]
@@ -203,7 +260,7 @@ THIRD = 200   # ... and in the calls of the history events (`use`, `aioSelf`) to
 INST2, SUBINST2 = 9, 10   # second instances of Base and of Sub
 ORIG = 50     # after a `copy` event the copies carry the instance tokens, the originals live on as token + ORIG
 # events in the world of the observed convention BEFORE it (Lean: Decorators.Ev; the model's state is the asyncio-mode
-# flag and the instance __dict__s: C09_history_restores / C09_history_irrelevant)
+# flag and the instance __dict__s: by construction no event writes them - C09_history_restores_by_construction)
 EVS = ["use", "useThread", "helpers", "copy", "deepcopy", "aioOk", "aioFail", "aioSelf", "gc", "dbg", "scoped", "mocked",
        "bcopy"]
 AIO_EVS = ("aioOk", "aioFail", "aioSelf")
@@ -218,11 +275,12 @@ INFLIGHT = ("twin", "sibling", "siblingCall")
 # a user task class (asynq(cls=...)), a user supplied key function (deduplicate(keygetter=...), alru_cache(key_fn=...))
 EKS = ["exc", "base", "falsy"]
 UNKNOWN = 999
-# tokens: receivers 1-8, separators 0, defaults 20/21, argument values 30.., names a=1 b=2 c=3 d=4 e=5
+# tokens: receivers 1-8, separators 0, defaults 20/21, argument values 30.., names a=1 b=2 c=3 d=4 e=5 fn=6
 INST, CLS, SUBINST, SUBCLS = 1, 2, 3, 4
 TWIN = 4  # twin receivers are 5..8
 DB, DC = 20, 21
-NAMES = {1: "a", 2: "b", 3: "c", 4: "d", 5: "e"}
+NAMES = {1: "a", 2: "b", 3: "c", 4: "d", 5: "e", 6: "fn"}
+FN = 6   # Lean: Decorators.nameFn - the keyword that collides with the first parameter of `def async_call(fn, *args, **kwargs)`
 # fixed argument patterns (pos, kw): valid for `fixed`, then 4 malformed for `fixed`
 PATTERNS = [
     ([30], []),                         # positional
@@ -258,6 +316,8 @@ def gen_args(rng):
         npos = rng.choice([9, 12])   # long argument lists (valid for the *args signatures)
     pos = [30 + i for i in range(npos)]
     names = [n for n in (1, 2, 3, 4, 5) if rng.random() < 0.35]
+    if rng.random() < 0.06:
+        names.append(FN)   # a keyword called `fn`: accepted by **kwargs bodies - and a second value for async_call's `fn`
     rng.shuffle(names)
     kw = [[n, 40 + n] for n in names]
     return pos, kw
@@ -441,11 +501,37 @@ def options_family():
     return cases
 
 
+def reserved_name_family(tier, rng):
+    """a keyword argument called `fn` (the name of async_call's own first parameter): every decorator kind x (module
+    function | instance method | classmethod via the subclass) x signature x body kind rotating; alone and next to other
+    keywords; bodies with **kwargs accept it (`var`, `mixed`), `fixed` bodies reject it in EVERY convention alike"""
+    cases = []
+    n = 0
+    for kind in KINDS:
+        binds = [("plain", "direct"), ("plain", "inst"), ("classm", "subCls")]
+        if kind in FN_STYLE:
+            binds = [("plain", "inst")] if kind == "acpi" else [("plain", "direct"), ("plain", "inst")]
+        for ft, acc in binds:
+            for sig in SIGS:
+                n += 1
+                base = dict(kind=kind, ft=ft, acc=acc, body=BODIES[n % 3], sig=sig, raises=1 if n % 6 == 0 else 0,
+                            rel=RELS[n % 2])
+                cases.append(dict(base, pos=[30], kw=[[FN, 46]]))
+                if sig != "fixed":
+                    cases.append(dict(base, pos=[30, 31], kw=[[3, 43], [FN, 46], [5, 45]]))
+                if tier != "quick":
+                    pos, kw = gen_args(rng)
+                    kw = [x for x in kw if x[0] != FN] + [[FN, 46]]
+                    cases.append(dict(base, pos=pos, kw=kw, **gen_opts(rng)))
+    return cases
+
+
 def plan(tier, seed):
     rng = random.Random(seed * 1000003 + 9)
     cases = corpus()
     nrand = 2 if tier == "quick" else 30
     cases += options_family()
+    cases += reserved_name_family(tier, random.Random(seed * 1000003 + 13))
     cases += second_call_family(tier, random.Random(seed * 1000003 + 10))
     cases += history_family(tier, random.Random(seed * 1000003 + 11))
     cases += override_family(tier, random.Random(seed * 1000003 + 12))
@@ -459,7 +545,7 @@ def plan(tier, seed):
                                           kw=[list(x) for x in kw], falsy=falsy, pre=list(pre)))
         for body in BODIES:
             # (an undecorated generator function is ordinary Python: every convention that reaches it hands back the
-            # generator object and enters no body - theorem C09_raw_generator; these cells used to be skipped)
+            # generator object and enters no body - theorem C09_raw_generator_partial; these cells used to be skipped)
             for raises in (0, 1):
                 for sig in SIGS:
                     for pos, kw in PATTERNS:
@@ -539,10 +625,20 @@ def _neighbours(case, rng):
     for _ in range(16):
         pos, kw = gen_args(rng)
         yield dict(case, pos=pos, kw=kw)
+    if not any(n == FN for n, _ in case["kw"]):
+        yield dict(case, kw=[list(x) for x in case["kw"]] + [[FN, 46]])
+
+
+FN_FINDING = "async_call/keyword-named-fn"
 
 
 def signature(case, v):
     # WHAT fails: the cell of the table and the clause (convention/helper), not the argument values
+    if any(n == FN for n, _ in case["kw"]) and str(v["spec"]).endswith("@asyncCall"):
+        # the FIRST convention that disagrees is async_call, and the call passes a keyword called `fn`: the open defect
+        # `def async_call(fn, *args, **kwargs)` (one defect whatever the cell; the model mirrors it, so the framework
+        # accepts the recorded finding only together with CORR=ok)
+        return FN_FINDING
     sig = "%s/%s/%s/%s" % (case["kind"], case["ft"], case["acc"], v["spec"])
     if case.get("falsy"):
         sig += "/falsy-receiver"
